@@ -20,6 +20,12 @@ rt/<route>/raises           the route raised on a valid position                
     <route> in generate_tiles | generate_tiles_filtered | create_single_tile | toast_tile_for_point
 rt/routes/agree             two routes give different (corners, increasing) for one position
                             {coordsys, n, x, y, route, other_route, dist, increasing, other_increasing}
+                            point look-up as the route of obtaining tile (n, x, y) (look-up of a point
+                            strictly inside the documented tile) adds {depth, lat, lon, weights, got}:
+                            weights = null (tile centre) or the four positive corner weights of the
+                            point; got = the position the look-up handed back; the same case also
+                            reports rt/toast_tile_for_point/positions {.., missing, extra} when
+                            got != (n, x, y)
 rt/tiles/shared_corners     two tiles of one level touching a lattice point disagree about it
                             {coordsys, n, x, y, corner, other_x, other_y, other_corner, dist}
 rt/tiles/nesting            a child does not keep its parent's corner / its new corner is not the
@@ -34,9 +40,14 @@ Bounds
 quick   : full enumeration (bottom_only False; True to depth 6) to depth 8, both systems; shared
           corners / nesting on those levels; areas exhaustively to depth 7; create_single_tile
           exhaustively to depth 5 + 800 random positions of depth <= 24; 60 filtered enumerations
-          (depth <= 6); 500 point look-ups (depth <= 14)   [all numbers per coordinate system].
+          (depth <= 6); 500 point look-ups (depth <= 14); point look-up as a construction route:
+          every position of levels 1..5 at its centre and at one random interior point + 600
+          random positions of depth 6..14, evenly over the four level-1 quadrants, compared with
+          the enumerated tile (create_single_tile beyond the enumerated levels)
+          [all numbers per coordinate system].
 thorough: enumeration to depth 9; areas to depth 8; single tiles exhaustively to depth 6 + 6000
-          random positions to depth 24; 300 filtered enumerations (depth <= 8); 3000 look-ups.
+          random positions to depth 24; 300 filtered enumerations (depth <= 8); 3000 look-ups;
+          look-up by position: levels 1..6 exhaustively + 4000 random positions to depth 14.
 
 Tolerances: sky positions compared as unit vectors, chord <= 1e-12 (rounding of <= 24 chained
 midpoints is ~1e-15); areas |a - ref| <= 1e-9 * ref + 1e-13 (toast_tile_area carries a constant
@@ -483,6 +494,66 @@ def _lookup_case(ctx, rep, T, Pos, coordsys, depth, lat, lon):
     return good
 
 
+def _interior_point(coordsys, n, x, y, weights):
+    """A point strictly inside the documented tile (n, x, y): its centre (``weights`` None) or the
+    normalised positive combination of its four corners (the tile is the intersection of a convex
+    cone with the sphere, so every positive combination of the corners lies inside it).
+    Returns (lat, lon, margin / shortest-edge)."""
+    q, inc = S.tile_quad(coordsys, n, x, y)
+    if weights is None:
+        p = S.quad_centre(q, inc)
+    else:
+        p = (np.asarray(weights, dtype=float)[:, None] * q).sum(axis=0)
+        p = p / math.sqrt(float((p * p).sum()))
+    lon, lat = S.v2ll(p)
+    rel = float(S.quad_inside_margin(q, p)) / S.quad_min_edge(q)
+    return float(lat), float(lon), rel
+
+
+def _lookup_position_case(ctx, rep, T, Pos, coordsys, n, x, y, weights, ref=None):
+    """'Obtain tile (n, x, y) by point look-up': look up a point strictly inside the documented
+    tile at depth n.  The tile handed back must be the tile of that position, with the same
+    corners and orientation as the other routes report for it (``ref`` = (corners, increasing)
+    from the enumeration when available, create_single_tile otherwise)."""
+    cs = T.ToastCoordinateSystem(coordsys)
+    lat, lon, rel = _interior_point(coordsys, n, x, y, weights)
+    w = {"coordsys": coordsys, "route": "toast_tile_for_point", "n": n, "x": x, "y": y, "depth": n, "lat": lat, "lon": lon,
+         "weights": None if weights is None else [float(v) for v in weights]}
+    try:
+        t = T.toast_tile_for_point(n, lat, lon, coordsys=cs)
+    except Exception as e:
+        rep("rt/toast_tile_for_point/raises", dict(w, error=repr(e)), "toast_tile_for_point(%d, %r, %r) raised %r" % (n, lat, lon, e))
+        return False
+    ctx.case((coordsys, "toast_tile_for_point@tile", n, x, y, None if weights is None else tuple(w["weights"])))
+    other = "generate_tiles"
+    if ref is None:
+        other = "create_single_tile"
+        try:
+            t2 = T.create_single_tile(Pos(n=n, x=x, y=y), coordsys=cs)
+            ref = (t2.corners, t2.increasing)
+        except Exception:
+            ref = None   # reported by the create_single_tile obligations
+    got = (int(t.pos.n), int(t.pos.x), int(t.pos.y))
+    good = True
+    if got != (n, x, y):
+        rep("rt/toast_tile_for_point/positions", dict(w, bottom_only=True, missing=[[n, x, y]], extra=[list(got)], repeated=[]),
+            "look-up of a point inside tile (%d,%d,%d) of the %s system (lat %.6f lon %.6f rad, %.2g of an edge away from the "
+            "border) returned tile %r" % (n, x, y, coordsys, lat, lon, rel, got))
+        good = False
+    else:
+        good &= _check_tile(rep, coordsys, "toast_tile_for_point", t, {"depth": n, "lat": lat, "lon": lon})
+    if ref is not None and t.corners is not None:
+        d = S.chord(_corner_vecs(t.corners), _corner_vecs(ref[0]))
+        dm = float(np.max(np.where(np.isnan(d), np.inf, d)))
+        if not dm <= TOL_POS or bool(t.increasing) != bool(ref[1]):
+            rep("rt/routes/agree", dict(w, other_route=other, dist=dm, increasing=bool(t.increasing), other_increasing=bool(ref[1]),
+                                        got=list(got)),
+                "tile (%d,%d,%d) of the %s system: point look-up inside it delivers tile %r whose corners are %.3g away from "
+                "those reported by %s (increasing %r vs %r)" % (n, x, y, coordsys, got, dm, other, bool(t.increasing), bool(ref[1])))
+            good = False
+    return good
+
+
 def _deep_single_case(ctx, rep, T, Pos, coordsys, n, x, y):
     t = _single(ctx, rep, T, Pos, coordsys, n, x, y)
     if t is None:
@@ -531,6 +602,8 @@ def run(ctx):
     d_filt = 8 if thorough else 6
     n_look = 3000 if thorough else 500
     d_look = 14
+    d_lookpos = 6 if thorough else 5
+    n_lookpos = 4000 if thorough else 600
 
     ctx.bound("both coordinate systems; generate_tiles(depth, bottom_only=False) for depth = %d and bottom_only=True for "
               "depth <= %d: every yielded tile compared with the documented lattice (chord <= %g)" % (d_enum, min(d_enum, 6), TOL_POS))
@@ -543,6 +616,11 @@ def run(ctx):
               "depth <= %d, bottom_only both ways" % (n_filt, d_filt))
     ctx.bound("toast_tile_for_point: %d random points (plus poles, equator, seam), depth <= %d: returned tile is the documented "
               "tile of the position it names and equals create_single_tile of that position" % (n_look, d_look))
+    ctx.bound("toast_tile_for_point as a construction route: every position of levels 1..%d looked up at the documented tile centre "
+              "and at one random strictly interior point (positive combination of the corners, weights in [0.15, 1]), plus %d "
+              "random positions of depth %d..%d spread evenly over the four level-1 quadrants: the look-up must hand back "
+              "that position with the corners / orientation the enumeration (create_single_tile beyond level %d) reports"
+              % (d_lookpos, n_lookpos, d_lookpos + 1, d_look, d_enum))
     ctx.assume("rt/c04_sphere.py is a faithful model of the documented TOAST layout (octahedron, midpoint subdivision)")
     ctx.assume("numpy float64 arithmetic; positions compared as unit vectors with chord tolerance 1e-12")
 
@@ -644,6 +722,28 @@ def run(ctx):
                 lat = math.asin(rng.uniform(-1, 1))
                 lon = rng.uniform(0, S.TWOPI)
             _lookup_case(ctx, rep, T, Pos, coordsys, depth, lat, lon)
+        # ---- point look-up as the fourth way of obtaining the tile of a given position
+        def ref_of(n, x, y):
+            if arr is not None and n in arr and arr[n][2][x, y] > 0:
+                return (arr[n][0][x, y], arr[n][1][x, y])
+            return None
+
+        def rand_w():
+            return [rng.uniform(0.15, 1.0) for _ in range(4)]
+
+        for n in range(1, d_lookpos + 1):
+            for x in range(1 << n):
+                for y in range(1 << n):
+                    _lookup_position_case(ctx, rep, T, Pos, coordsys, n, x, y, None, ref_of(n, x, y))
+                    _lookup_position_case(ctx, rep, T, Pos, coordsys, n, x, y, rand_w(), ref_of(n, x, y))
+        for i in range(n_lookpos):
+            n = rng.randint(d_lookpos + 1, d_look)
+            h = 1 << (n - 1)
+            x = (i % 2) * h + rng.randrange(h)          # level-1 quadrant i % 4
+            y = ((i // 2) % 2) * h + rng.randrange(h)
+            _lookup_position_case(ctx, rep, T, Pos, coordsys, n, x, y, None if i % 3 == 0 else rand_w(), ref_of(n, x, y))
+            if i == 0:
+                ctx.sample({"coordsys": coordsys, "route": "toast_tile_for_point", "n": n, "x": x, "y": y, "at": "tile centre"})
     for obligation, k in sorted(rep.n.items()):
         if k > CAP:
             ctx.note("%s: %d failing cases met, first %d reported" % (obligation, k, CAP))
@@ -700,8 +800,10 @@ def replay(obligation, witness):
         _filtered_case(c, rep, T, Pos, coordsys, int(w["depth"]), bool(w["bottom_only"]), f["kind"], f["params"], check_single=10 ** 6)
     elif len(parts) == 3 and parts[1] == "create_single_tile":
         _single(c, rep, T, Pos, coordsys, int(w["n"]), int(w["x"]), int(w["y"]))
-    elif len(parts) == 3 and parts[1] == "toast_tile_for_point":
+    elif len(parts) == 3 and parts[1] == "toast_tile_for_point" and "weights" not in w:
         _lookup_case(c, rep, T, Pos, coordsys, int(w["depth"]), float(w["lat"]), float(w["lon"]))
+    elif (obligation == "rt/routes/agree" or obligation.startswith("rt/toast_tile_for_point/")) and "weights" in w:
+        _lookup_position_case(c, rep, T, Pos, coordsys, int(w["n"]), int(w["x"]), int(w["y"]), w["weights"])
     elif obligation == "rt/routes/agree":
         n, x, y = int(w["n"]), int(w["x"]), int(w["y"])
         cs = T.ToastCoordinateSystem(coordsys)
